@@ -83,9 +83,11 @@ def parse_normalize(an: Analysis):
     arms: List[Arm] = []
     for names, body, node in arms_raw:
         rets = returns_of(body)
-        if len(rets) != 1 or len(body) != 1:
-            raise AnalysisError(f"{fn.qual}: arm for {names} is not a single return")
-        e = _strip_cast(rets[0].value)
+        pre = [st for st in body[:-1]]
+        if len(rets) != 1 or not isinstance(body[-1], ast.Return) or not all(isinstance(st, (ast.Assign, ast.AnnAssign, ast.Expr, ast.ImportFrom, ast.Import)) for st in pre):
+            raise AnalysisError(f"{fn.qual}: arm for {names} is not straight-line code ending in a single return")
+        from .encode_model import inline_locals
+        e = _strip_cast(inline_locals(ast.Module(body=body, type_ignores=[]), rets[0].value) if pre else rets[0].value)
         arm = None
         if isinstance(e, ast.Call):
             fname = e.func.id if isinstance(e.func, ast.Name) else getattr(e.func, "attr", "")
